@@ -12,10 +12,11 @@ p = f'{root}/tools/not_applicable.json'
 if os.path.exists(p):
     na_reasons = json.load(open(p))
 checks, na = [], []
+ready = set(open(f'{root}/tools/ready.txt').read().split())
 for pr in props:
     pid = pr['id']
     frag = f'{root}/checks/{pid.lower()}/manifest.json'
-    if os.path.exists(frag):
+    if os.path.exists(frag) and pid in ready:
         f = json.load(open(frag))
         checks.append({
             'property_id': pid,
